@@ -112,6 +112,10 @@ func (x *X) execBlock(fr *Frame, b *ssa.BasicBlock, cur *State, edgeSt map[edge]
 			fr.retVals = append(fr.retVals, vals)
 			return
 		case *ssa.Panic:
+			if x.topC != nil && x.topC.NoSafety && fr.fn == x.top {
+				// panics by contract (Must* functions): the path simply does not return
+				return
+			}
 			x.safety(cur, fr, "panic", tFalse, in.Pos())
 			return
 		default:
